@@ -30,9 +30,10 @@ DIMS = OrderedDict([
     ("cwd", ["neutral", "decoy-inputs"]),
     ("rows", ["given", "reversed", "rotated"]),
     ("nm", [1, 2, 4]),                          # formula units per cell (header field of the phonon file)      # row order of the static table (lattice rows move with their volumes)
-    ("weights", ["increasing", "equal", "scaled", "int"]),
+    ("weights", ["increasing", "equal", "scaled", "int", "zero-first", "zero-last"]),
     ("poly_degree", [2, 1]),
-    ("lheader", [" lattice_a lattice_b lattice_c", "LATTICE_A LATTICE_B LATTICE_C", "a b c", "# lattice parameters (bohr)"]),   # one-line header of the lattice block
+    ("lheader", [" lattice_a lattice_b lattice_c", "LATTICE_A LATTICE_B LATTICE_C", "a b c", "# lattice parameters (bohr)",
+                 "lattice_a lattice_b lattice_c alpha beta gamma"]),    # the last one: three trailing columns (cell angles) after the axis lengths   # one-line header of the lattice block
 ])
 
 
@@ -78,6 +79,8 @@ def run_case(case):
         nvr = spec["nv"]
         rows = {"given": None, "reversed": list(range(nvr))[::-1], "rotated": list(range(2, nvr)) + [0, 1]}[case.get("rows", "given")]
         skw = {"lattice_header": case["lheader"]} if case.get("lheader") else {}
+        if "alpha" in skw.get("lattice_header", ""):
+            skw["lattice_extra"] = " 90.000000 90.000000 120.000000"
         ds, st = synth.write(d, spec, rows=rows, **skw)
         if case.get("cwd") == "decoy-inputs":
             # the process runs in a directory that holds same-named files of ANOTHER data set; the settings file is
@@ -220,6 +223,8 @@ def canon(case):
     if c["system"] in (None, "triclinic"):
         if c["compset"] == "nonzero":
             c["compset"] = "full21"
+    if c["weights"].startswith("zero") and (c["shape"][0] < 2 or (c["weights"] == "zero-last" and c["shape"][0] < 3 and c["shape"][1] < 2)):
+        c["weights"] = "increasing"           # some weighted optical / non-Gamma mode must remain (otherwise C_V = 0 everywhere)
     if c["lattice"] == "none":
         c["lheader"] = DIMS["lheader"][0]
     return c
